@@ -57,7 +57,7 @@ def op_sig(op):
         s += "." + str(op["f"])
     if op["op"] == "np_reduce":
         ax = op.get("axis")
-        s += ":axis=" + ("none" if ax is None else "name" if isinstance(ax, str) else "int")
+        s += ":axis=" + ("none" if ax is None else "name" if isinstance(ax, str) else "tuple" if isinstance(ax, (list, tuple)) else "int")
     return s
 
 
@@ -218,6 +218,33 @@ def shares_state(a, b):
     return sorted(set(out))
 
 
+def hist_arrays(d):
+    """every NumPy array reachable from the parameters recorded in an object's processing history"""
+    out = []
+
+    def walk(x):
+        if isinstance(x, np.ndarray):
+            out.append(x)
+        elif isinstance(x, dict):
+            for v in x.values():
+                walk(v)
+        elif isinstance(x, (list, tuple)):
+            for v in x:
+                walk(v)
+    for ent in getattr(d, "proc_attrs", []) or []:
+        walk(ent)
+    return out
+
+
+def history_aliases_live(d):
+    """a recorded parameter that IS one of the object's live arrays: a later in-place step rewrites the log"""
+    try:
+        live = [np.asarray(d.values)] + [np.asarray(c) for c in d.coords.coords]
+        return any(h.size and l.size and np.shares_memory(h, l) for h in hist_arrays(d) for l in live)
+    except Exception:
+        return False
+
+
 class FrameOracle:
     """C03: apart from the receiver of an in-place method nothing in the store changes,
     whether the call returns or raises; a raising in-place call leaves the receiver as it was;
@@ -236,6 +263,8 @@ class FrameOracle:
                 try:
                     if arr.size and (np.shares_memory(arr, d.values) or any(np.shares_memory(arr, c) for c in d.coords.coords)):
                         out.append("C03:shared-state:%s:argument-array" % sig)
+                    if arr.size and any(h.size and np.shares_memory(arr, h) for h in hist_arrays(d)):
+                        out.append("C03:shared-state:%s:argument-array-in-history" % sig)
                 except Exception:
                     pass
         for k, s0 in pre.items():
@@ -287,6 +316,8 @@ class HistoryOracle:
         src = st.objs[op[key]].proc_attrs
         if not _eq(list(src), list(pre)):
             out.append("C11:input-history-altered:" + sig)
+        if history_aliases_live(st.objs[op["out"]]):
+            out.append("C11:history-aliases-live-array:" + sig)
         if not _eq(list(res[: len(pre)]), list(pre)):
             out.append("C11:prefix-lost:" + sig)
         elif len(res) <= len(pre):
@@ -406,6 +437,9 @@ class NumpyOracle:
                 ax = op.get("axis")
                 if ax is None:
                     want = NPRED[op["f"]](a["values"])
+                elif isinstance(ax, (list, tuple)):
+                    ks = tuple(a["dims"].index(x) if isinstance(x, str) else x for x in ax)
+                    want = NPRED[op["f"]](a["values"], axis=ks)
                 else:
                     k = a["dims"].index(ax) if isinstance(ax, str) else ax
                     want = NPRED[op["f"]](a["values"], axis=k)
@@ -413,7 +447,7 @@ class NumpyOracle:
             return [] if line["outcome"].startswith("raise") else ["C10:numpy-raises-but-call-returned:" + sig]
         if line["outcome"] != "ok":
             return ["C10:unexpected-raise:" + sig]
-        if o == "np_reduce" and (op.get("axis") is None or len(a["dims"]) == 1):
+        if o == "np_reduce" and (op.get("axis") is None or len(a["dims"]) == 1 or np.asarray(want).ndim == 0):
             got = line.get("ret")
             from common import parse_g
             if got is None:
@@ -427,10 +461,10 @@ class NumpyOracle:
             return ["C10:wrong-value:" + sig]
         if o == "np_reduce":
             ax = op["axis"]
-            k = a["dims"].index(ax) if isinstance(ax, str) else ax
-            k = k % len(a["dims"])
-            dims = a["dims"][:k] + a["dims"][k + 1:]
-            coords = a["coords"][:k] + a["coords"][k + 1:]
+            axl = list(ax) if isinstance(ax, (list, tuple)) else [ax]
+            gone = {(a["dims"].index(x) if isinstance(x, str) else x) % len(a["dims"]) for x in axl}
+            dims = [x for k, x in enumerate(a["dims"]) if k not in gone]
+            coords = [x for k, x in enumerate(a["coords"]) if k not in gone]
         else:
             dims, coords = a["dims"], a["coords"]
         return [] if same_labels(r, dims, coords) else ["C10:labels-wrong:" + sig]
